@@ -53,6 +53,7 @@ func Build(rule Rule) (WireFormat, error) {
 		if err = data.setAction(v.Action); err != nil {
 			return nil, err
 		}
+		data.prepend = v.Type == PrependSyscallRuleType
 
 		for _, filter := range v.Filters {
 			switch filter.Type {
@@ -132,7 +133,7 @@ func ToCommandLine(wf WireFormat, resolveIds bool) (rule string, err error) {
 	// Detect if rule is a watch.
 	// Must have all syscalls and perm field. Only other valid fields are
 	// dir, path and key, according to auditctl source
-	if permIdx, ok := existingFields[permField]; r.allSyscalls && ok {
+	if permIdx, ok := existingFields[permField]; r.allSyscalls && !r.prepend && ok {
 		extraFields, pos := false, 0
 		var path, key string
 	loop:
@@ -165,8 +166,12 @@ func ToCommandLine(wf WireFormat, resolveIds bool) (rule string, err error) {
 
 	// Parse rule as syscall type
 
+	addFlag := "-a"
+	if r.prepend {
+		addFlag = "-A"
+	}
 	arguments := []string{
-		"-a",
+		addFlag,
 		fmt.Sprintf("%s,%s", act, list),
 	}
 
@@ -379,6 +384,8 @@ type ruleData struct {
 	flags  filter
 	action action
 
+	prepend bool // Add the rule to the beginning of the list (AUDIT_FILTER_PREPEND).
+
 	allSyscalls bool
 	syscalls    []uint32
 
@@ -397,6 +404,9 @@ func (r ruleData) toAuditRuleData() (*auditRuleData, error) {
 		Action:     r.action,
 		FieldCount: uint32(len(r.fields)),
 	}}
+	if r.prepend {
+		data.Flags |= prependFilter
+	}
 
 	if r.allSyscalls {
 		for i := range data.Mask {
@@ -434,7 +444,8 @@ func (r ruleData) toAuditRuleData() (*auditRuleData, error) {
 }
 
 func (r *ruleData) fromAuditRuleData(in *auditRuleData) error {
-	r.flags = in.Flags
+	r.flags = in.Flags &^ prependFilter
+	r.prepend = in.Flags&prependFilter != 0
 	r.action = in.Action
 	r.fields = make([]field, in.FieldCount)
 	r.allSyscalls = true
